@@ -594,6 +594,51 @@ func classifyAssert(p *Program, fn *ssa.Function, x *ssa.TypeAssert) panicSite {
 			}
 		}
 	}
+	// the result of an in-module helper that returns a value of the dynamic type of one of its parameters
+	// (the parameter itself, or what UnmarshalAs decoded into a value of its type): asserted to the static type
+	// of the argument passed for that parameter
+	if ex, ok := v.(*ssa.Extract); ok && ex.Index == 0 {
+		if call, ok := ex.Tuple.(*ssa.Call); ok {
+			if f := call.Call.StaticCallee(); f != nil && inModule(f) {
+				if k := returnsTypeOfParam(f); k >= 0 && k < len(call.Call.Args) {
+					if at := dynTypeOf(call.Call.Args[k]); at != nil && types.Identical(at, x.AssertedType) {
+						s.ok, s.why = true, "asserted type is the type of the prototype handed to the helper, which returns a value of that type"
+						return s
+					}
+				}
+			}
+		}
+	}
+	// parameter of a callback that is handed, together with a prototype of the asserted type, to an in-module
+	// helper which calls it with the values it decoded into that type (push-style reply list; the wiring is
+	// decided by rules A6/B11)
+	if prm, ok := v.(*ssa.Parameter); ok && fn.Parent() != nil && types.IsInterface(prm.Type()) {
+		for _, b := range fn.Parent().Blocks {
+			for _, in := range b.Instrs {
+				ci, ok := in.(ssa.CallInstruction)
+				if !ok {
+					continue
+				}
+				cc := ci.Common()
+				if f := cc.StaticCallee(); f == nil || !inModule(f) {
+					continue
+				}
+				passes, proto := false, false
+				for _, a := range cc.Args {
+					if mc, ok := a.(*ssa.MakeClosure); ok && mc.Fn == ssa.Value(fn) {
+						passes = true
+					}
+					if at := dynTypeOf(a); at != nil && types.Identical(at, x.AssertedType) {
+						proto = true
+					}
+				}
+				if passes && proto {
+					s.ok, s.why = true, "callback parameter: the helper it is passed to receives a prototype of the asserted type and hands the callback values of that type"
+					return s
+				}
+			}
+		}
+	}
 	// element of the broadcast helper's result list: decided by the API walk (type known statically there)
 	if isIfaceElemOfCall(v) {
 		s.ok, s.why = true, "element of the reply list whose element type is fixed by the reply prototype passed to the helper (resolved statically in rule A6)"
@@ -1632,4 +1677,72 @@ func callerMinLen(p *Program, fn *ssa.Function, v ssa.Value, depth int) int64 {
 		return 0
 	}
 	return min
+}
+
+// returnsTypeOfParam: every non-nil first result of fn is its interface parameter k itself or the value
+// codec.UnmarshalAs decoded with parameter k as prototype. Returns k, or -1.
+func returnsTypeOfParam(fn *ssa.Function) int {
+	if fn.Blocks == nil || fn.Signature.Results().Len() == 0 || !types.IsInterface(fn.Signature.Results().At(0).Type()) {
+		return -1
+	}
+	k := -1
+	paramIdx := func(v ssa.Value) int {
+		for i, p := range fn.Params {
+			if p == v {
+				return i
+			}
+		}
+		return -1
+	}
+	var classify func(v ssa.Value, depth int) bool
+	classify = func(v ssa.Value, depth int) bool {
+		if depth > 4 {
+			return false
+		}
+		if isNilConst(v) {
+			return true
+		}
+		if i := paramIdx(v); i >= 0 {
+			if k >= 0 && k != i {
+				return false
+			}
+			k = i
+			return true
+		}
+		switch x := v.(type) {
+		case *ssa.Phi:
+			for _, e := range x.Edges {
+				if !classify(e, depth+1) {
+					return false
+				}
+			}
+			return true
+		case *ssa.Extract:
+			if call, ok := x.Tuple.(*ssa.Call); ok && x.Index == 0 {
+				if f := call.Call.StaticCallee(); f != nil && calleeName(f) == "codec.UnmarshalAs" && len(call.Call.Args) == 2 {
+					if i := paramIdx(call.Call.Args[1]); i >= 0 {
+						if k >= 0 && k != i {
+							return false
+						}
+						k = i
+						return true
+					}
+				}
+			}
+		}
+		return false
+	}
+	for _, b := range fn.Blocks {
+		for _, in := range b.Instrs {
+			if ret, ok := in.(*ssa.Return); ok {
+				// `return codec.UnmarshalAs(x, reply)` returns the call's tuple
+				if len(ret.Results) >= 1 {
+					if !classify(ret.Results[0], 0) {
+						return -1
+					}
+				}
+			}
+		}
+	}
+	return k
 }
